@@ -141,6 +141,25 @@ func runC13(r *mc.Run) {
 		})
 		add("values/bytes="+name, p, world.SGXExtension(p), wantExact)
 	}
+	// the opaque CPUSVN octet string is its own value: it need not repeat the sixteen components
+	for _, name := range []string{"zero", "ff", "reversed", "plus1"} {
+		name := name
+		p := platWith(func(p *world.Platform) {
+			b := make([]byte, 16)
+			for i := range b {
+				switch name {
+				case "ff":
+					b[i] = 0xff
+				case "reversed":
+					b[i] = p.CPUSVN[15-i]
+				case "plus1":
+					b[i] = p.CPUSVN[i] + 1
+				}
+			}
+			p.CPUSVNBlob = b
+		})
+		add("values/cpusvn-blob="+name, p, world.SGXExtension(p), wantExact)
+	}
 	// orders
 	top, tcb := world.SGXElems(base)
 	for _, perm := range permutations(5) {
@@ -367,6 +386,30 @@ func runC13(r *mc.Run) {
 	})
 	r.SectionDone(mc.Section{Name: "extension-cases", Evaluations: int64(done), Exhaustive: done == len(cases)})
 
+	// all byte contents: every value of the two-byte PCE-ID, and every value of the first two bytes of
+	// FMSPC and PPID (contents that happen to read as a DER header must come back unchanged)
+	walk := func(name string, set func(p *world.Platform, hi, lo byte)) {
+		done := r.Parallel(1<<16, func(v int) {
+			id := fmt.Sprintf("bytes/%s=%04x", name, v)
+			if !r.Want(id) {
+				return
+			}
+			p := platWith(func(p *world.Platform) { set(p, byte(v>>8), byte(v)) })
+			c := c13case{id: id, exts: sixExts(world.SGXExtension(p)), plat: p, want: wantExact}
+			var got *pcs.PckExtensions
+			var err error
+			func() {
+				defer world.Recover(&err)
+				got, err = pcs.PckCertificateExtensions(&x509.Certificate{Extensions: c.exts})
+			}()
+			r.Eval(id, true, "bytes:"+c13Judge(r, c, got, err))
+		})
+		r.SectionDone(mc.Section{Name: "byte-contents/" + name, Evaluations: int64(done), Exhaustive: done == 1<<16})
+	}
+	walk("pceid", func(p *world.Platform, hi, lo byte) { p.PCEID = []byte{hi, lo} })
+	walk("fmspc[0:2]", func(p *world.Platform, hi, lo byte) { p.FMSPC[0], p.FMSPC[1] = hi, lo })
+	walk("ppid[0:2]", func(p *world.Platform, hi, lo byte) { p.PPID[0], p.PPID[1] = hi, lo })
+
 	// FMSPC visible in the TCB-Info URL: issue real leaves and watch the fetch.
 	pki := world.CachedPKI("T")
 	for _, f := range [][]byte{{0, 0, 0, 0, 0, 0}, {0xff, 0xee, 0xdd, 0xcc, 0xbb, 0xaa}, {0x00, 0x90, 0x6e, 0xd5, 0x00, 0x00}, {0x80, 0, 0, 0, 0, 1}} {
@@ -430,7 +473,7 @@ func c13Judge(r *mc.Run, c c13case, got *pcs.PckExtensions, err error) string {
 				appendIf(chk(name, okv, zero))
 			}
 			appendIf(chk("tcb17", got.TCB.PCESvn == p.PCESVN, got.TCB.PCESvn == 0))
-			appendIf(chk("tcb18", bytes.Equal(got.TCB.CPUSvn, p.CPUSVN[:]), len(got.TCB.CPUSvn) == 0))
+			appendIf(chk("tcb18", bytes.Equal(got.TCB.CPUSvn, p.Blob()), len(got.TCB.CPUSvn) == 0))
 		}
 		if len(bad) > 0 {
 			return false, fmt.Sprint(bad)
